@@ -8,8 +8,7 @@ from .. import core
 from ..core import c_nat, c_list, c_float
 
 ANCHORS = {"cluster_label_assignment.py": ["assign_point_cluster_labels"]}
-R_AX = ["ClassicalDedekindReals.sig_forall_dec", "ClassicalDedekindReals.sig_not_dec",
-        "FunctionalExtensionality.functional_extensionality_dep"]
+R_AX = core.R_AX
 
 RULE = ("cost tables from five streams (real values over 24 orders of magnitude; small integers with many ties; "
         "T=1 / K=1 / beta=0 boundaries; beta as scalar of several Python/NumPy types or as a vector with zeros; "
